@@ -188,6 +188,136 @@ def translate_dmd(src):
     return out
 
 
+
+def translate_dmdc(src):
+    """Dmdc._fit_regressor: two truncated SVDs (unshifted, shifted), the split of the left singular vectors of the
+    unshifted data into state and input rows, A / B / A_tilde / B_tilde, eig of A_tilde, exact / projected modes,
+    the lstsq reconstruction of A and coef = hstack((A_r, B)).T"""
+    cls = [c for c in src.body if isinstance(c, ast.ClassDef) and c.name == 'Dmdc'][0]
+    fn = [f for f in cls.body if isinstance(f, ast.FunctionDef) and f.name == '_fit_regressor'][0]
+    if [a.arg for a in fn.args.args] != ['self', 'X_unshifted', 'X_shifted']:
+        raise Unsupported('signature of Dmdc._fit_regressor')
+    out = ['', 'Section GenDmdc.', 'Variable F : fieldType.', 'Variables pt pu q r rh : nat.',
+           "Variable X_unshifted : 'M[F]_(q, pt + pu).", "Variable X_shifted : 'M[F]_(q, pt).",
+           '(* oracles: the truncated SVDs of Psi (r triplets) and of Theta_+ (rh triplets), the eigendecomposition of A_tilde *)',
+           "Variables (Q_tld : 'M[F]_(pt + pu, r)) (sig_tld : 'rV[F]_r) (Z_tld : 'M[F]_(q, r)).",
+           "Variables (Q_hat : 'M[F]_(pt, rh)) (sig_hat : 'rV[F]_rh) (Z_hat : 'M[F]_(q, rh)).",
+           "Variables (lmb : 'rV[F]_rh) (V_tld : 'M[F]_rh).", '']
+    tr = Tr({'X_unshifted': ('M', 'X_unshifted'), 'X_shifted': ('M', 'X_shifted')})
+    attrs = {'unshifted': {'left_singular_vectors_': ('M', 'Q_tld'), 'singular_values_': ('RV', 'sig_tld'),
+                           'right_singular_vectors_': ('M', 'Z_tld')},
+             'shifted': {'left_singular_vectors_': ('M', 'Q_hat'), 'singular_values_': ('RV', 'sig_hat'),
+                         'right_singular_vectors_': ('M', 'Z_hat')}}
+    svd_of = {}
+    eig_of = None
+    modes = {}
+    lstsq = False
+    coef_ok = False
+    for st in fn.body:
+        if isinstance(st, ast.Expr) and isinstance(st.value, ast.Constant):
+            continue
+        txt = ast.unparse(st)
+        if isinstance(st, ast.Assign) and ast.unparse(st.targets[0]) in ('self.tsvd_unshifted_', 'self.tsvd_shifted_'):
+            which = ast.unparse(st.targets[0])[len('self.tsvd_'):-1]
+            if f'sklearn.base.clone(self.tsvd_{which})' not in txt or 'tsvd.Tsvd()' not in txt:
+                raise Unsupported('clone plumbing of ' + which)
+            continue
+        if isinstance(st, ast.Expr) and isinstance(st.value, ast.Call) and ast.unparse(st.value.func) in (
+                'self.tsvd_unshifted_.fit', 'self.tsvd_shifted_.fit'):
+            which = ast.unparse(st.value.func)[len('self.tsvd_'):-len('_.fit')]
+            svd_of[which] = tr.ex(st.value.args[0])[1]
+            for a, v in attrs[which].items():
+                tr.env[f'self.tsvd_{which}_.{a}'] = v
+            continue
+        if isinstance(st, ast.Assign) and len(st.targets) == 1:
+            tg, v = st.targets[0], st.value
+            if isinstance(tg, ast.Tuple) and ast.unparse(v).startswith('linalg.eig('):
+                if [e.id for e in tg.elts] != ['lmb', 'V_tld'] or len(v.args) != 1:
+                    raise Unsupported('eig call')
+                eig_of = tr.ex(v.args[0])[1]
+                tr.env['lmb'] = ('RV', 'lmb'); tr.env['V_tld'] = ('M', 'V_tld')
+                continue
+            if ast.unparse(tg) == 'self.eigenvalues_':
+                if ast.unparse(v) != 'lmb':
+                    raise Unsupported('eigenvalues_ is not the eig output')
+                tr.env['self.eigenvalues_'] = ('RV', 'lmb')
+                continue
+            if ast.unparse(tg) == 'self.B_tilde_':
+                if tr.ex(v)[0] != 'M':
+                    raise Unsupported('B_tilde_')
+                continue
+            if isinstance(tg, ast.Name) and tg.id in ('Q_tld_1', 'Q_tld_2'):
+                want = {'Q_tld_1': 'Q_tld[:Theta_p.shape[0], :]', 'Q_tld_2': 'Q_tld[Theta_p.shape[0]:, :]'}[tg.id]
+                if ast.unparse(v) != want:
+                    raise Unsupported(f'{tg.id}: {ast.unparse(v)}')
+                t = '(usubmx Q_tld)' if tg.id == 'Q_tld_1' else '(dsubmx Q_tld)'
+                out.append(f'(* {txt} : Theta_p has pt rows *)')
+                out.append(f'Definition gen_dmdc_{tg.id} := {t}.')
+                tr.env[tg.id] = ('M', f'gen_dmdc_{tg.id}')
+                continue
+            if isinstance(tg, ast.Name) and tg.id == 'A_r':
+                want = 'np.real(linalg.lstsq(self.modes_.T, (self.modes_ @ Sigma).T)[0].T)'
+                if ast.unparse(v) != want:
+                    raise Unsupported('reconstruction of A: ' + ast.unparse(v))
+                lstsq = True
+                continue
+            if isinstance(tg, ast.Name) and tg.id == 'coef':
+                if ast.unparse(v) != 'np.hstack((A_r, B)).T':
+                    raise Unsupported('coef: ' + ast.unparse(v))
+                coef_ok = True
+                continue
+            if isinstance(tg, ast.Name):
+                k, t = tr.ex(v)
+                if t in ('Q_tld', 'sig_tld', 'Z_tld', 'Q_hat', 'sig_hat', 'Z_hat'):
+                    if tg.id != t:
+                        raise Unsupported(f'oracle output {t} bound to the name {tg.id}')
+                    tr.env[tg.id] = (k, t)
+                    continue
+                if k != 'M':
+                    raise Unsupported('non-matrix assignment ' + tg.id)
+                out.append(f'Definition gen_dmdc_{tg.id} := {t}.')
+                tr.env[tg.id] = ('M', f'gen_dmdc_{tg.id}')
+                continue
+        if isinstance(st, ast.If):
+            node = st
+            while isinstance(node, ast.If):
+                test = ast.unparse(node.test)
+                if not test.startswith("self.mode_type == '"):
+                    raise Unsupported('branch ' + test)
+                name = test.split("'")[1]
+                body = node.body
+                if len(body) != 2 or ast.unparse(body[1].targets[0]) != 'self.modes_' \
+                        or ast.unparse(body[1].value) != ast.unparse(body[0].targets[0]):
+                    raise Unsupported('mode branch shape')
+                k, t = tr.ex(body[0].value)
+                out.append(f'Definition gen_dmdc_modes_{name} := {t}.')
+                modes[name] = t
+                nxt = node.orelse
+                if len(nxt) == 1 and isinstance(nxt[0], ast.If):
+                    node = nxt[0]
+                else:
+                    if not (len(nxt) <= 2 and all(isinstance(x, (ast.Assert, ast.Expr)) for x in nxt)):
+                        raise Unsupported('else branch of mode_type')
+                    node = None
+            continue
+        if isinstance(st, ast.Return):
+            if ast.unparse(st.value) != 'coef':
+                raise Unsupported('return value')
+            continue
+        raise Unsupported('Dmdc: ' + txt[:200])
+    if set(svd_of) != {'unshifted', 'shifted'} or eig_of is None or not lstsq or not coef_ok or set(modes) != {'exact', 'projected'}:
+        raise Unsupported('Dmdc: expected two SVDs, eig, two mode types, the lstsq reconstruction and coef = hstack((A_r, B)).T')
+    out += ['(* the SVD oracles are applied to: *)', f'Definition gen_dmdc_svd_unshifted_argument := {svd_of["unshifted"]}.',
+            f'Definition gen_dmdc_svd_shifted_argument := {svd_of["shifted"]}.',
+            '(* the eig oracle is applied to: *)', f'Definition gen_dmdc_eig_argument := {eig_of}.',
+            "(* A_r = lstsq(modes^T, (modes Sigma)^T)[0]^T ; coef = hstack((A_r, B))^T *)",
+            "Definition gen_dmdc_lstsq_lhs (modes : 'M[F]_(pt, rh)) := modes^T.",
+            "Definition gen_dmdc_lstsq_rhs (modes : 'M[F]_(pt, rh)) := (modes *m gen_dmdc_Sigma)^T.",
+            "Definition gen_dmdc_coef (A_r : 'M[F]_pt) := (row_mx A_r gen_dmdc_B)^T.",
+            'End GenDmdc.', '']
+    return out
+
+
 def main():
     src = ast.parse(open(os.path.join(REPO, 'pykoop', 'regressors.py')).read())
     cls = [c for c in src.body if isinstance(c, ast.ClassDef) and c.name == 'Edmd'][0]
@@ -249,6 +379,7 @@ def main():
     out += ['', '(* the method returns coef = any least-squares solution X of  gen_edmd_lstsq_lhs *m X = gen_edmd_lstsq_rhs *)',
             'End GenEdmd.', '']
     out += translate_dmd(src)
+    out += translate_dmdc(src)
     os.makedirs(OUT, exist_ok=True)
     with open(os.path.join(OUT, 'Regressors.v'), 'w') as f:
         f.write('\n'.join(out) + '\n')
